@@ -771,10 +771,12 @@ def main():
         nsto = emit_store(outdir)
         from translate_shape import emit_shape  # noqa
         nsh = emit_shape(outdir)
+        from translate_rows import emit_rows  # noqa
+        nrw = emit_rows(outdir)
     except TranslateError as e:
         print(str(e))
         sys.exit(2)
-    print(f"translate: {nr} parser rules, {nc} instruction classes, {nl} leaf functions, {nk} key/index classification functions, {ns} wrapper functions, {na} condition-combination functions, {ng} global-graph/neighbourhood functions, {nsr} path-search functions, {nsv} worklist-solver functions, {nct} constraint-initialisation functions, {nrx} regex-engine functions, {ngr} group-verdict functions, {nrn} orchestration functions, {ncf} CFG-construction functions, {nst} operand-reconstruction functions, {nfn} function-construction functions, {nln} line-parser functions, {njt} joint-pass function, {ncs} constant-resolution functions, {ndt} detector functions, {nout} exporter functions, {nvr} version/mode/cost functions, {ncp} main-CFG-copy functions, {nrp} report functions, {ngi} group-configuration functions, {nsto} context / result-storing functions, {nsh} argument-parser functions and rule lambdas -> {outdir}")
+    print(f"translate: {nr} parser rules, {nc} instruction classes, {nl} leaf functions, {nk} key/index classification functions, {ns} wrapper functions, {na} condition-combination functions, {ng} global-graph/neighbourhood functions, {nsr} path-search functions, {nsv} worklist-solver functions, {nct} constraint-initialisation functions, {nrx} regex-engine functions, {ngr} group-verdict functions, {nrn} orchestration functions, {ncf} CFG-construction functions, {nst} operand-reconstruction functions, {nfn} function-construction functions, {nln} line-parser functions, {njt} joint-pass function, {ncs} constant-resolution functions, {ndt} detector functions, {nout} exporter functions, {nvr} version/mode/cost functions, {ncp} main-CFG-copy functions, {nrp} report functions, {ngi} group-configuration functions, {nsto} context / result-storing functions, {nsh} argument-parser functions and rule lambdas, {nrw} row-text functions -> {outdir}")
 
 
 if __name__ == "__main__":
